@@ -31,6 +31,8 @@ pub enum VK {
   IntSelf,
   Str,
   Bool,
+  /// payload is a struct class `S(val x: int)` (always a heap pointer)
+  StructRef,
 }
 
 impl VK {
@@ -43,6 +45,7 @@ impl VK {
       VK::IntSelf => "is",
       VK::Str => "t",
       VK::Bool => "b",
+      VK::StructRef => "r",
     }
   }
   fn payload(&self, me: &str, other: &str) -> Vec<String> {
@@ -54,6 +57,7 @@ impl VK {
       VK::IntSelf => vec!["int".into(), me.into()],
       VK::Str => vec!["Str".into()],
       VK::Bool => vec!["bool".into()],
+      VK::StructRef => vec!["S".into()],
     }
   }
 }
@@ -85,6 +89,7 @@ fn enum_decl(name: &str, other: &str, vs: &[VK]) -> String {
           "int" => format!("Str.fromInt({v})"),
           "Str" => v.clone(),
           "bool" => format!("(if {v} {{ \"true\" }} else {{ \"false\" }})"),
+          "S" => format!("\"S\" :: Str.fromInt({v}.x)"),
           _ => format!("{v}.show()"),
         })
         .collect();
@@ -119,6 +124,7 @@ fn terms(name: &str, other: &str, me: &[VK], oth: &[VK], depth: usize, cap: usiz
           "int" => vec!["0".into(), "42".into(), "(-1)".into()],
           "Str" => vec!["\"\"".into(), "\"s\"".into()],
           "bool" => vec!["true".into(), "false".into()],
+          "S" => vec!["S.init(7)".into(), "S.init(-2)".into()],
           x if x == name => go(name, other, me, oth, depth - 1, cap),
           _ => go(other, name, oth, me, depth - 1, cap),
         };
@@ -147,7 +153,7 @@ fn terms(name: &str, other: &str, me: &[VK], oth: &[VK], depth: usize, cap: usiz
   go(name, other, me, oth, depth, cap)
 }
 
-const SUPPORT: &str = "class Box<T>(val v: T) {\n  method get(): T = this.v\n}\n";
+const SUPPORT: &str = "class Box<T>(val v: T) {\n  method get(): T = this.v\n}\nclass S(val x: int) {}\nclass Opt<T>(None, Some(T)) {\n  method <R> fold(d: R, f: (T) -> R): R = match this { None -> d, Some(t) -> f(t) }\n}\n";
 
 fn type_shape_program(a: &[VK], b: Option<&[VK]>, b_first: bool) -> Option<Prog> {
   let empty: [VK; 0] = [];
@@ -179,7 +185,8 @@ fn type_shape_program(a: &[VK], b: Option<&[VK]>, b_first: bool) -> Option<Prog>
       if i < 6 {
         text.push_str(&format!("    Process.println(Main.id({t}).show());\n"));
         text.push_str(&format!("    Process.println(Box.init({t}).get().show());\n"));
-        let _ = cls;
+        text.push_str(&format!("    Process.println(Opt.Some({t}).fold(\"none\", (v) -> v.show()));\n"));
+        text.push_str(&format!("    Process.println(Opt.None<{cls}>().fold(\"none\", (v) -> v.show()));\n"));
       }
     }
   }
@@ -215,14 +222,14 @@ fn lists(kinds: &[VK], max_len: usize) -> Vec<Vec<VK>> {
 pub fn type_shape_family(thorough: bool) -> Vec<Prog> {
   let mut out = vec![];
   let single_kinds: &[VK] = if thorough {
-    &[VK::Nullary, VK::Int, VK::SelfRef, VK::IntSelf, VK::Str, VK::Bool]
+    &[VK::Nullary, VK::Int, VK::SelfRef, VK::IntSelf, VK::Str, VK::Bool, VK::StructRef]
   } else {
-    &[VK::Nullary, VK::Int, VK::SelfRef, VK::IntSelf, VK::Str]
+    &[VK::Nullary, VK::Int, VK::SelfRef, VK::IntSelf, VK::Str, VK::StructRef]
   };
   for a in lists(single_kinds, 3) {
     out.extend(type_shape_program(&a, None, false));
   }
-  let pair_kinds: &[VK] = &[VK::Nullary, VK::Int, VK::Other];
+  let pair_kinds: &[VK] = &[VK::Nullary, VK::Int, VK::Other, VK::StructRef];
   let pair_lists = lists(pair_kinds, if thorough { 3 } else { 2 });
   for a in &pair_lists {
     for b in &pair_lists {
@@ -487,6 +494,26 @@ class Main {
     Process.println(Str.fromInt(Main.apply(C.twice, 10)));
     Process.println(c.pick("a", "b"));
     Process.println(Str.fromInt(C.init(0).pick(1, 2)))
+  }
+}
+"#,
+  );
+  add(
+    "method-reference-receiver-is-otherwise-unused-parameter",
+    r#"class C(val n: int) {
+  method plus(d: int): int = this.n + d
+  method get(): int = this.n
+  method selfGetter(): () -> int = this.get
+  method selfPlus(): (int) -> int = this.plus
+}
+class Main {
+  function getter(c: C): () -> int = c.get
+  function adder(c: C, unused: int): (int) -> int = c.plus
+  function main(): unit = {
+    Process.println(Str.fromInt(Main.getter(C.init(42))()));
+    Process.println(Str.fromInt(Main.adder(C.init(40), 0)(2)));
+    Process.println(Str.fromInt(C.init(7).selfGetter()()));
+    Process.println(Str.fromInt(C.init(7).selfPlus()(1)))
   }
 }
 "#,
@@ -802,6 +829,19 @@ pub fn string_family() -> Vec<Prog> {
       "class Main {{\n  function b(v: bool): Str = if v {{ \"true\" }} else {{ \"false\" }}\n  function id(s: Str): Str = s\n  function main(): unit = {{\n    Process.println(\"{c}\");\n    Process.println(\"<\" :: \"{c}\" :: \">\");\n    Process.println(Main.id(\"{c}\") :: Main.id(\"{c}\"));\n    Process.println(Main.b(\"{c}\" == \"{c}\"));\n    Process.println(Main.b(Main.id(\"{c}\") == \"{c}\" :: \"\"));\n    Process.println(Main.b(\"{c}\" == \"other\"));\n    Process.println(Main.b(\"{c}\" != Main.id(\"other\")))\n  }}\n}}\n"
     );
     out.push(Prog { family: "string", shape: format!("literal:{label}"), name: format!("string {label}"), text });
+    // the same content built at run time (concatenation of non-empty parts, fromInt) compared
+    // with literals and with another run-time string: exercises the runtime's own Str equality
+    let mut text = String::from("class Main {\n  function b(v: bool): Str = if v { \"true\" } else { \"false\" }\n  function id(s: Str): Str = s\n  function main(): unit = {\n");
+    text.push_str(&format!("    let built = Main.id(\"{c}\") :: Main.id(\"!\") :: Str.fromInt(\"7\".toInt());\n"));
+    text.push_str(&format!("    let again = Main.id(\"{c}!\") :: Str.fromInt(\"7\".toInt());\n"));
+    text.push_str("    Process.println(built);\n");
+    text.push_str(&format!("    Process.println(Main.b(built == \"{c}!7\"));\n"));
+    text.push_str(&format!("    Process.println(Main.b(\"{c}!7\" == built));\n"));
+    text.push_str("    Process.println(Main.b(built == again));\n    Process.println(Main.b(built != again));\n");
+    text.push_str(&format!("    Process.println(Main.b(built == \"{c}!8\"));\n"));
+    text.push_str(&format!("    Process.println(Main.b(built != Main.id(\"{c}\") :: Main.id(\"?7\")));\n"));
+    text.push_str("    Process.println(Main.b(built == built))\n  }\n}\n");
+    out.push(Prog { family: "string", shape: format!("runtime-built:{label}"), name: format!("string runtime-built {label}"), text });
   }
   // fromInt / toInt over the alphabet
   let mut text = String::from("class Main {\n  function main(): unit = {\n");
